@@ -292,6 +292,16 @@ static int do_call(const char *fn, int a1, int a2, int a3, int a4)
 		ev.note = (unsigned char)(a2 & 1 ? 0 : 1 + (a2 >> 1) % 96);
 		ev.ins = (unsigned char)(m->mod.ins > 0 ? 1 + (a2 >> 8) % m->mod.ins : 0);
 		ev.vol = (unsigned char)((a2 >> 4) % 65);
+		if (a3 != 0) {
+			/* arbitrary event: every field is caller-controlled data (a3, a4 carry the bytes) */
+			ev.note = (unsigned char)(a3 & 0xff);
+			ev.ins = (unsigned char)((a3 >> 8) & 0xff);
+			ev.vol = (unsigned char)((a3 >> 16) & 0xff);
+			ev.fxt = (unsigned char)((a3 >> 24) & 0xff);
+			ev.fxp = (unsigned char)(a4 & 0xff);
+			ev.f2t = (unsigned char)((a4 >> 8) & 0xff);
+			ev.f2p = (unsigned char)((a4 >> 16) & 0xff);
+		}
 		xmp_inject_event(ctx, a1, &ev);
 	} else if (!strcmp(fn, "set_player")) {
 		ret = xmp_set_player(ctx, a1, a2);
@@ -468,7 +478,20 @@ static void random_call(void)
 	} else if (r < 640) {
 		int v = vrng_chance(30) ? -1 : vrng_chance(60) ? vrng_range(0, 100) : gen_int(101);
 		call("channel_vol", gen_int(chn + sx->chn), v, 0, 0);
-	} else if (r < 665) call("inject_event", gen_int(chn + sx->chn), (int)vrng_below(1 << 16), 0, 0);
+	} else if (r < 665) {
+		int a3 = 0, a4 = 0;
+		if (vrng_chance(50)) {
+			static const unsigned char bv[] = { 0, 1, 2, 0x0f, 0x10, 0x1f, 0x20, 0x3f, 0x40, 0x7f, 0x80, 0xf0, 0xfe, 0xff };
+			int insv = vrng_chance(50) ? ins + sx->ins + vrng_range(-2, 2) : (int)vrng_below(256);
+			a3 = (int)(vrng_below(256) | ((uint32_t)(insv & 0xff) << 8) | ((uint32_t)bv[vrng_below(sizeof(bv))] << 16) |
+				   ((uint32_t)(vrng_chance(50) ? vrng_below(0x30) : vrng_below(256)) << 24));
+			a4 = (int)(bv[vrng_below(sizeof(bv))] | ((vrng_chance(50) ? vrng_below(0x30) : vrng_below(256)) << 8) |
+				   ((uint32_t)bv[vrng_below(sizeof(bv))] << 16));
+			if (a3 == 0)
+				a3 = 1;
+		}
+		call("inject_event", gen_int(chn + sx->chn), (int)vrng_below(1 << 16), a3, a4);
+	}
 	else if (r < 745) {
 		int parm = gen_parm();
 		call("set_player", parm, gen_parm_val(parm), 0, 0);
